@@ -764,6 +764,18 @@ def check_decap(args):
             return "decap: a low-latency packet (%d bytes) is not returned ahead of the normal data of its frame; %s" % (len(b), desc)
     return None
 
+def check_nollp(args):
+    """the frame-fill simulation's `overflow` flag (which sorts failures into K3) is the negation of
+    NoLLPOverflow — the hypothesis of the Lean theorem decap_encap_llp — observed on the real generator"""
+    L, sid = args["L"], args.get("sid", 1)
+    seq = [(bytes.fromhex(h), l) for h, l in args["pkts"]]
+    overflow = simulate(seq, L)[3]
+    real = ad.nollp(L, sid, [[b, l] for b, l in seq])
+    if real == overflow:
+        return "NoLLPOverflow on the real generator is %r but the frame-fill simulation says overflow=%r; L=%d packet lengths %r" % (
+            real, overflow, L, [(len(b), "LLP" if l else "") for b, l in seq])
+    return None
+
 def _c10_sequences(ctx, n):
     rng = ctx.rng
     out = []
@@ -807,6 +819,8 @@ def _stream_corr(ctx):
     for (L, mode, seq) in seqs:
         sid = rng.choice([1, 1, 0, 15])
         lines.append("F ch7.encap %d %d %s" % (L, sid, seq_text(seq)))
+        if mode != "normal" or rng.random() < 0.2:
+            lines.append("F ch7.nollp %d %d %s" % (L, sid, seq_text(seq)))     # the hypothesis of decap_encap_llp
         try:
             frames = ad.encap(L, sid, [[b, l] for b, l in seq])[1]
         except Exception:
@@ -878,7 +892,7 @@ def _stream_oracles(ctx, hints):
         for ft in features(seq, L):
             ctx.count("c10_" + ft)
         ctx.count("c10_sequences_" + ("llp" if any(l for _, l in seq) else "normal"))
-        for name, fn in (("ch7_encap", check_encap), ("ch7_decap", check_decap)):
+        for name, fn in (("ch7_encap", check_encap), ("ch7_decap", check_decap), ("ch7_nollp", check_nollp)):
             n += 1
             try:
                 w = fn(args)
@@ -887,7 +901,9 @@ def _stream_oracles(ctx, hints):
             key = (name, overflow)
             if w and key not in seen:
                 seen.add(key)
-                fails.append(Failure(name, args, w, _c10_tags("encap" if name == "ch7_encap" else "decap", overflow,
+                # a disagreement about the hypothesis itself is never part of K3
+                fails.append(Failure(name, args, w, _c10_tags({"ch7_encap": "encap", "ch7_decap": "decap"}.get(name, "nollp"),
+                                                             overflow and name != "ch7_nollp",
                                                              traffic="normal" if all(not l for _, l in seq) else "llp")))
     ctx.count("oracle_evaluations", n)
     fails.sort(key=lambda f: bool(f.tags.get("llp_overflow")))     # failures outside K3 first
@@ -1181,7 +1197,7 @@ def corr_C13(ctx):
 ORACLES = {
     "golay_word": check_golay_word, "golay_pattern": check_golay_pattern,
     "ptdp_robust": check_ptdp_robust, "ptfr_robust": check_ptfr_robust,
-    "ch7_encap": check_encap, "ch7_decap": check_decap,
+    "ch7_encap": check_encap, "ch7_decap": check_decap, "ch7_nollp": check_nollp,
     "ptdp_accept": check_ptdp_accept, "golay_bytes": check_golay_bytes, "ptfr_accept": check_ptfr_accept,
     "ptdp_layout": check_ptdp_layout, "ptfr_layout": check_ptfr_layout, "gap_total": check_gap_total,
 }
